@@ -86,7 +86,7 @@ def run(h, case):
         n = case['n']
         pts = tagged_points(h, n)
         st = Stubs(h, n, limit=40 * n * n + 100)
-        with patched(h, st):
+        with patched(h, st, requested=case.get('distance', 'shortest')):
             def D(a, b):
                 return h.vals(st.dist(pts[a:b + 1]))
 
@@ -128,7 +128,7 @@ def run(h, case):
 def realise(case, rnd):
     """concretiser for abstract counterexamples: the fixed-size chain on small random integer curves"""
     n = case['n']
-    for curve in random_curves(n, rnd, 80):
+    for curve in random_curves(max(n, 6), rnd, 600):
         yield dict(layer='L0', fn='chain', curve=curve, pos=[], distance=case['distance'], order=case['order'], realised_from=dict(n=n)), {}
 
 
